@@ -3,6 +3,12 @@
 #[verifier::external_body]
 pub struct ExIoError(std::io::Error);
 
+// io::Error / ErrorKind as opaque values (so that code inspecting `e.kind()` can be verified; nothing is assumed about the kind)
+#[verifier::external_type_specification]
+pub struct ExErrorKind(std::io::ErrorKind);
+pub assume_specification [std::io::Error::kind] (e: &std::io::Error) -> (k: std::io::ErrorKind);
+pub assume_specification [<std::io::ErrorKind as PartialEq>::eq] (a: &std::io::ErrorKind, b: &std::io::ErrorKind) -> (r: bool) ensures r == (*a == *b);
+
 #[verifier::external_trait_specification]
 #[verifier::external_trait_extension(WriteSpec via WriteSpecImpl)]
 pub trait ExWrite {
